@@ -38,6 +38,22 @@ def body_signature(b):
     return out
 
 
+def _panics(n):
+    """the branch ends in a panic (an assertion / refusal), not in a mere early return"""
+    n = strip(n)
+    if not isinstance(n, dict):
+        return False
+    if n.get("k") == "Call":
+        return (callee(n) or "").startswith("core::panicking::") or (callee(n) or "").startswith("std::panicking::") or \
+            (n.get("ty") == "!" and "panic" in (callee(n) or ""))
+    if n.get("k") == "Block":
+        for s_ in n["stmts"]:
+            if s_["s"] == "expr" and _panics(s_["e"]):
+                return True
+        return n.get("e") is not None and _panics(n["e"])
+    return False
+
+
 def r19_config_invariance(facts_by_cfg, run_rules):
     c = Ctx("R19", None, "the f32 build is the f64 build with the float type substituted")
     fd = facts_by_cfg.get("default")
@@ -114,7 +130,7 @@ def r19_config_invariance(facts_by_cfg, run_rules):
         n_assert = 0
         for b in facts.bodies:
             for n in walk(facts.root(b)):
-                if n.get("k") == "If" and n.get("else") is None and diverges(n["then"]):
+                if n.get("k") == "If" and n.get("else") is None and _panics(n["then"]):
                     n_assert += 1
                     cond = n["cond"]
                     bad = None
